@@ -41,6 +41,10 @@ type c15Sim struct {
 	uniq                                                                        map[[2]int]bool
 	nextTx, nextSnap, nextTopo, nextTs, nextSeed, nextDep, nextNonce, nextBatch int
 	usedTopo                                                                    []int
+
+	noAdmit  bool         // declare transactions only (the kernel path admits them itself)
+	forceIns []*c15SimOut // spend exactly these outputs
+	forceKey int          // ghost key symbol of output 0 of the next spend (a collision)
 }
 
 var c15Unit = big.NewInt(100000000)
@@ -107,6 +111,9 @@ func (s *c15Sim) outLine(o *c15SimOut, typ string) string {
 
 // declare + (validate) + lock + put
 func (s *c15Sim) admit(t *c15SimTx, validate bool) {
+	if s.noAdmit {
+		return
+	}
 	if validate {
 		s.emit("validate %d 0", t.id)
 	}
@@ -204,7 +211,9 @@ func (s *c15Sim) spend(kind string, sigok bool, skew int64, ref int, validate bo
 	}
 	first := Pick(s.r, cands)
 	ins := []*c15SimOut{first}
-	if s.r.Chance(1, 3) {
+	if s.forceIns != nil {
+		ins, first = s.forceIns, s.forceIns[0]
+	} else if s.r.Chance(1, 3) {
 		for _, o := range cands {
 			if o != first && o.asset == first.asset {
 				ins = append(ins, o)
@@ -245,6 +254,9 @@ func (s *c15Sim) spend(kind string, sigok bool, skew int64, ref int, validate bo
 		}
 		if i == 0 && kind == "claim" {
 			typ, o.key = "c", 0
+		}
+		if i == 0 && typ == "s" && s.forceKey != 0 {
+			o.key = s.forceKey
 		}
 		t.outs = append(t.outs, o)
 		outl = append(outl, s.outLine(o, typ))
@@ -306,6 +318,11 @@ func (s *c15Sim) snapshot(members []int, node int, expect bool, topo int) {
 	if !expect {
 		return
 	}
+	s.applyFinal(members, node, topo)
+}
+
+// the simulation's bookkeeping of a snapshot it expects to be written
+func (s *c15Sim) applyFinal(members []int, node, topo int) {
 	s.usedTopo = append(s.usedTopo, topo)
 	for _, id := range members {
 		s.uniq[[2]int{id, node}] = true
@@ -430,7 +447,23 @@ func c15GenLedger(r *Rand, i int, tier string) []string {
 		s.someDeposit()
 	}
 	for k := 0; k < steps; k++ {
-		switch r.Intn(20) {
+		switch r.Intn(36) {
+		case 32, 33:
+			s.failingOutput()
+		case 34, 35:
+			s.concurrent()
+		case 20, 21:
+			s.odd()
+		case 22, 23, 24:
+			s.kpath()
+		case 25, 26:
+			s.takeover()
+		case 27, 28:
+			s.retry()
+		case 29, 30:
+			s.pendingRefs()
+		case 31:
+			s.failingOutput()
 		case 0, 1, 2:
 			s.someDeposit()
 		case 3, 4:
@@ -438,24 +471,7 @@ func c15GenLedger(r *Rand, i int, tier string) []string {
 		case 5:
 			s.spend("submit", true, 0, 0, true)
 		case 6:
-			// claim of a finalized submit (building what it needs: XIN funds, a finalized submission)
-			if len(s.liveOuts(1)) == 0 {
-				t := s.deposit(1, c15Units(int64(r.Range(1, 50))), c15DepOpt{validate: true})
-				s.snapshot([]int{t.id}, 1+r.Intn(c15Nodes), s.fits([]int{t.id}), 0)
-			}
-			sub := 0
-			for _, id := range s.finalIDs() {
-				if s.txs[id].kind == "submit" {
-					sub = id
-				}
-			}
-			if sub == 0 {
-				if t := s.spend("submit", true, 0, 0, true); t != nil && t.good {
-					s.snapshot([]int{t.id}, 1+r.Intn(c15Nodes), s.fits([]int{t.id}), 0)
-					sub = t.id
-				}
-			}
-			if sub != 0 {
+			if sub := s.claimPrereq(); sub != 0 {
 				s.spend("claim", true, 0, sub, true)
 			}
 		case 7:
@@ -551,6 +567,494 @@ func c15GenLedger(r *Rand, i int, tier string) []string {
 		}
 	}
 	return s.lines
+}
+
+// what a withdrawal claim needs: XIN funds and a finalized submission; returns the submission
+func (s *c15Sim) claimPrereq() int {
+	r := s.r
+	if len(s.liveOuts(1)) == 0 {
+		t := s.deposit(1, c15Units(int64(r.Range(1, 50))), c15DepOpt{validate: true})
+		s.snapshot([]int{t.id}, 1+r.Intn(c15Nodes), s.fits([]int{t.id}), 0)
+	}
+	sub := 0
+	for _, id := range s.finalIDs() {
+		if s.txs[id].kind == "submit" {
+			sub = id
+		}
+	}
+	if sub == 0 {
+		if t := s.spend("submit", true, 0, 0, true); t != nil && t.good {
+			s.snapshot([]int{t.id}, 1+r.Intn(c15Nodes), s.fits([]int{t.id}), 0)
+			sub = t.id
+		}
+	}
+	return sub
+}
+
+// n positive parts of total (nil when total < n)
+func (s *c15Sim) splitExact(total *big.Int, n int) []*big.Int {
+	if total.Cmp(big.NewInt(int64(n))) < 0 {
+		return nil
+	}
+	var parts []*big.Int
+	rest := new(big.Int).Set(total)
+	for i := 0; i < n-1; i++ {
+		// leave at least one unit for every later part
+		room := new(big.Int).Sub(rest, big.NewInt(int64(n-1-i)))
+		p := new(big.Int).Div(new(big.Int).Mul(room, big.NewInt(int64(1+s.r.Intn(6)))), big.NewInt(10))
+		if p.Sign() <= 0 {
+			p = big.NewInt(1)
+		}
+		parts = append(parts, p)
+		rest = new(big.Int).Sub(rest, p)
+	}
+	return append(parts, rest)
+}
+
+// finalize through the node's own rule: `snapv` writes the snapshot only when the real validation
+// accepted every member (a rejected one is skipped on both sides)
+func (s *c15Sim) snapshotValidated(members []int, node int) {
+	var ids []string
+	for _, id := range members {
+		ids = append(ids, fmt.Sprint(id))
+	}
+	sid, topo := s.nextSnap, s.nextTopo
+	s.nextSnap++
+	s.nextTopo++
+	s.nextTs++
+	s.emit("snapv %d %d 1 %d %d %d %s", sid, node, s.nextTs, topo, s.r.Intn(c15Nodes+1), strings.Join(ids, ","))
+	s.emit("dump")
+	s.emit("supply")
+}
+
+// a transaction of any class with three or more outputs and an output type that does not belong at
+// some position >= 1 (value conserving, properly signed): validation has to refuse it; if the real
+// validation accepts, it is finalized and the supply equations are observed
+func (s *c15Sim) odd() {
+	r := s.r
+	kind := Pick(r, []string{"claim", "claim", "submit", "transfer", "deposit", "mint"})
+	nOut := r.Range(3, 5)
+	pos := r.Range(1, nOut-1)
+	oddT := Pick(r, []string{"w", "w", "c", "x", "z"})
+	ref := 0
+	var ins []*c15SimOut
+	var inl []string
+	var total *big.Int
+	asset := 0
+	switch kind {
+	case "claim":
+		if ref = s.claimPrereq(); ref == 0 {
+			return
+		}
+		asset = 1
+	case "deposit":
+		asset = Pick(r, []int{1, 4, 5})
+		total = c15Units(int64(r.Range(1, 40)))
+		inl = []string{fmt.Sprintf("d:%d:%d:%d:%s", s.nextDep, c15Info(asset)[0], c15Info(asset)[1], total)}
+		s.nextDep++
+	case "mint":
+		asset = 1
+		total = c15Units(int64(r.Range(1, 40)))
+		inl = []string{fmt.Sprintf("m:%d:%s", s.nextBatch, total)}
+		s.nextBatch++
+	}
+	if total == nil {
+		cands := s.liveOuts(asset)
+		if len(cands) == 0 {
+			return
+		}
+		first := Pick(r, cands)
+		asset = first.asset
+		ins = []*c15SimOut{first}
+		total = new(big.Int).Set(first.amount)
+		inl = []string{fmt.Sprintf("u:%d:%d", first.tx, first.idx)}
+	}
+	parts := s.splitExact(total, nOut)
+	if kind == "claim" {
+		fee := c15ClaimFee()
+		if total.Cmp(new(big.Int).Add(fee, big.NewInt(int64(nOut)))) < 0 {
+			return
+		}
+		parts = append([]*big.Int{fee}, s.splitExact(new(big.Int).Sub(total, fee), nOut-1)...)
+	}
+	if parts == nil {
+		return
+	}
+	t := s.newTx(kind, asset)
+	t.good = false
+	t.ins = ins
+	acct := 1 + r.Intn(4)
+	var outl []string
+	for i, p := range parts {
+		o := &c15SimOut{tx: t.id, idx: i, asset: asset, amount: p, key: s.key(acct, i)}
+		typ := "s"
+		if i == 0 && kind == "submit" {
+			typ = "w"
+		}
+		if i == 0 && kind == "claim" {
+			typ = "c"
+		}
+		if i == pos {
+			typ = oddT
+		}
+		if typ == "w" || typ == "c" {
+			o.key = 0
+		}
+		t.outs = append(t.outs, o)
+		outl = append(outl, s.outLine(o, typ))
+	}
+	s.nextSeed++
+	refs := "-"
+	if ref != 0 {
+		refs = fmt.Sprint(ref)
+	}
+	s.emit("tx %d %d 1 1 %d %s %s %s", t.id, asset, s.nonce(), strings.Join(inl, ","), strings.Join(outl, ","), refs)
+	s.emit("validate %d 0", t.id)
+	s.emit("persistv %d 0", t.id)
+	s.snapshotValidated([]int{t.id}, 1+r.Intn(c15Nodes))
+}
+
+// ---- the kernel path: the node's own validateSnapshotTransaction, then TopoWrite
+
+// allocate the symbols of a snapshot; the same arguments serve `kvalidate` and `ksnap`
+func (s *c15Sim) kargs(members []int, node int) (string, int) {
+	var ids []string
+	for _, id := range members {
+		ids = append(ids, fmt.Sprint(id))
+	}
+	sid, topo := s.nextSnap, s.nextTopo
+	s.nextSnap++
+	s.nextTopo++
+	s.nextTs++
+	return fmt.Sprintf("%d %d 1 %d %d %d %s", sid, node, s.nextTs, topo, s.r.Range(1, c15Nodes), strings.Join(ids, ",")), topo
+}
+
+func (s *c15Sim) kvalidate(args string, finalized bool) {
+	fin := 0
+	if finalized {
+		fin = 1
+	}
+	s.emit("kvalidate %s %d", args, fin)
+	s.emit("dump")
+}
+
+// `ksnap` is executed only when the real validation accepted this very snapshot
+func (s *c15Sim) ksnap(args string) {
+	s.emit("ksnap %s", args)
+	s.emit("dump")
+	s.emit("supply")
+}
+
+// declare (not admit) a transaction of a random ordinary class
+func (s *c15Sim) declared() *c15SimTx {
+	s.noAdmit = true
+	defer func() { s.noAdmit = false }()
+	switch s.r.Intn(4) {
+	case 0:
+		return s.someDeposit()
+	case 1:
+		return s.spend("submit", true, 0, 0, false)
+	default:
+		if t := s.spend("transfer", true, 0, 0, false); t != nil {
+			return t
+		}
+		return s.someDeposit()
+	}
+}
+
+// ordinary life through the kernel: 1..3 cached transactions validated as one snapshot, then written
+func (s *c15Sim) kpath() {
+	var members []int
+	for k := s.r.Range(1, 3); k > 0; k-- {
+		if t := s.declared(); t != nil {
+			members = append(members, t.id)
+		}
+	}
+	if len(members) == 0 {
+		return
+	}
+	node := 1 + s.r.Intn(c15Nodes)
+	args, topo := s.kargs(members, node)
+	s.kvalidate(args, false)
+	good := true
+	for _, id := range members {
+		good = good && s.txs[id].good
+		s.txs[id].put = s.txs[id].good
+	}
+	if s.r.Chance(1, 4) {
+		if s.r.Bool() {
+			return // stays pending; finalized later by the ordinary batches or never
+		}
+		// offered again in another snapshot: the persisted bodies are trusted
+		node = 1 + s.r.Intn(c15Nodes)
+		args, topo = s.kargs(members, node)
+		s.kvalidate(args, false)
+	}
+	s.ksnap(args)
+	if good && s.fits(members) {
+		s.applyFinal(members, node, topo)
+	} else {
+		for _, id := range members {
+			s.txs[id].good = false
+		}
+	}
+}
+
+// a pending transaction loses its input to a transaction of a finalized snapshot (fork lock), then comes
+// back in a snapshot of its own: the node must validate it again (and refuse it)
+func (s *c15Sim) takeover() {
+	r := s.r
+	outs := s.liveOuts(0)
+	if len(outs) == 0 {
+		return
+	}
+	u := Pick(r, outs)
+	s.noAdmit = true
+	s.forceIns = []*c15SimOut{u}
+	t1 := s.spend(Pick(r, []string{"transfer", "submit"}), true, 0, 0, false)
+	u.taken = false
+	t2 := s.spend("transfer", true, 0, 0, false)
+	s.forceIns, s.noAdmit = nil, false
+	if t1 == nil || t2 == nil {
+		return
+	}
+	n1, n2 := 1+r.Intn(c15Nodes), 1+r.Intn(c15Nodes)
+	a1, _ := s.kargs([]int{t1.id}, n1)
+	s.kvalidate(a1, false) // t1 validated, locked, persisted; its snapshot is not finalized
+	a2, topo2 := s.kargs([]int{t2.id}, n2)
+	s.kvalidate(a2, true) // t2 arrives in a finalized snapshot: takes the input over, prunes t1
+	s.ksnap(a2)
+	s.applyFinal([]int{t2.id}, n2, topo2)
+	t1.good, t1.put = false, false
+	// t1 comes back, once or twice, as a proposal or inside a finalized snapshot
+	for k := r.Range(1, 2); k > 0; k-- {
+		a3, _ := s.kargs([]int{t1.id}, 1+r.Intn(c15Nodes))
+		s.kvalidate(a3, r.Chance(1, 3))
+		s.ksnap(a3)
+	}
+}
+
+// a transaction the node refuses is presented again (proposer retry, another node batching it): the
+// verdict has to be the same as long as the ledger did not change
+func (s *c15Sim) retry() {
+	r := s.r
+	var t *c15SimTx
+	s.noAdmit = true
+	switch r.Intn(4) {
+	case 0, 1: // a single deposit lifting a known asset to or above its capacity
+		asset := Pick(r, []int{2, 3})
+		if s.info[asset] == nil {
+			s.noAdmit = false
+			d := s.deposit(asset, c15Units(int64(r.Range(1, 20))), c15DepOpt{validate: true})
+			s.snapshot([]int{d.id}, 1+r.Intn(c15Nodes), s.fits([]int{d.id}), 0)
+			s.noAdmit = true
+		}
+		room := new(big.Int).Sub(c15Cap(asset), s.total[asset])
+		t = s.deposit(asset, new(big.Int).Add(room, big.NewInt(int64(r.Range(0, 3)))), c15DepOpt{})
+	case 2: // an output reusing the ghost key of a finalized output
+		for _, id := range s.finalIDs() {
+			for _, o := range s.txs[id].outs {
+				if o.idx == 0 && o.key != 0 {
+					s.forceKey = o.key
+				}
+			}
+		}
+		if s.forceKey != 0 {
+			t = s.spend("transfer", true, 0, 0, false)
+		}
+		s.forceKey = 0
+	default: // amounts off by one
+		t = s.spend("transfer", true, int64(Pick(r, []int{-1, 1})), 0, false)
+	}
+	s.noAdmit = false
+	if t == nil {
+		return
+	}
+	t.good = false
+	for _, o := range t.ins {
+		o.taken = false
+	}
+	for k := r.Range(2, 3); k > 0; k-- {
+		args, _ := s.kargs([]int{t.id}, 1+r.Intn(c15Nodes))
+		s.kvalidate(args, false)
+		s.ksnap(args)
+	}
+}
+
+// references to transactions that are persisted but not finalized: a claim of a pending withdrawal
+// submission, an ordinary reference to a pending transaction; the referrer is offered for finalization first
+func (s *c15Sim) pendingRefs() {
+	r := s.r
+	if len(s.liveOuts(1)) < 2 {
+		t := s.deposit(1, c15Units(int64(r.Range(2, 50))), c15DepOpt{validate: true})
+		s.snapshot([]int{t.id}, 1+r.Intn(c15Nodes), s.fits([]int{t.id}), 0)
+		t = s.deposit(1, c15Units(int64(r.Range(2, 50))), c15DepOpt{validate: true})
+		s.snapshot([]int{t.id}, 1+r.Intn(c15Nodes), s.fits([]int{t.id}), 0)
+	}
+	kernelPath := r.Bool()
+	s.noAdmit = kernelPath
+	w := s.spend(Pick(r, []string{"submit", "submit", "transfer"}), true, 0, 0, true)
+	if w == nil || !w.good {
+		s.noAdmit = false
+		return
+	}
+	nw := 1 + r.Intn(c15Nodes)
+	aw, topow := s.kargs([]int{w.id}, nw)
+	if kernelPath {
+		s.kvalidate(aw, false) // persisted, pending
+	}
+	w.put = true
+	kind := "transfer"
+	if w.kind == "submit" {
+		kind = "claim"
+	}
+	c := s.spend(kind, true, 0, w.id, false)
+	s.noAdmit = false
+	if c == nil {
+		return
+	}
+	c.good, c.put = false, false
+	for _, o := range c.ins {
+		o.taken = false
+	}
+	if kernelPath {
+		ac, _ := s.kargs([]int{c.id}, 1+r.Intn(c15Nodes))
+		s.kvalidate(ac, false) // the reference is not finalized: refused
+		s.ksnap(ac)
+		s.ksnap(aw) // now the referenced transaction is finalized
+		s.applyFinal([]int{w.id}, nw, topow)
+	} else {
+		s.emit("validate %d 0", c.id)
+		s.emit("persistv %d 0", c.id)
+		s.snapshotValidated([]int{c.id}, 1+r.Intn(c15Nodes))
+		s.snapshot([]int{w.id}, nw, s.fits([]int{w.id}), 0)
+	}
+	if w.final {
+		// with the reference finalized the same referrer is acceptable
+		for _, o := range c.ins {
+			if o.taken {
+				return
+			}
+		}
+		if kernelPath {
+			nc := 1 + r.Intn(c15Nodes)
+			ac, topoc := s.kargs([]int{c.id}, nc)
+			s.kvalidate(ac, false)
+			s.ksnap(ac)
+			c.good, c.put = true, true
+			for _, o := range c.ins {
+				o.taken = true
+			}
+			s.applyFinal([]int{c.id}, nc, topoc)
+		}
+	}
+}
+
+// an unvalidated deposit with several script outputs (finalization does not care about the count); when
+// `like` is given, output number `pos` reuses the ghost key of the same output of `like`
+func (s *c15Sim) multiDeposit(asset, nOut int, like *c15SimTx, pos int) *c15SimTx {
+	t := s.newTx("deposit", asset)
+	t.info = c15Info(asset)
+	acct := 1 + s.r.Intn(4)
+	total := new(big.Int)
+	var outl []string
+	for i := 0; i < nOut; i++ {
+		amt := c15Units(int64(s.r.Range(1, 9)))
+		total.Add(total, amt)
+		o := &c15SimOut{tx: t.id, idx: i, asset: asset, amount: amt, key: s.key(acct, i)}
+		if like != nil && i == pos {
+			o.key = like.outs[i].key
+		}
+		t.outs = append(t.outs, o)
+		outl = append(outl, s.outLine(o, "s"))
+	}
+	s.nextSeed++
+	t.amount = total
+	s.emit("tx %d %d 1 1 %d d:%d:%d:%d:%s %s -", t.id, asset, s.nonce(), s.nextDep, t.info[0], t.info[1], total, strings.Join(outl, ","))
+	s.nextDep++
+	s.emit("lock %d 0", t.id)
+	s.emit("put %d", t.id)
+	t.put = true
+	return t
+}
+
+// a multi-output member whose output number `pos` (first, middle, last) cannot be written because its
+// ghost key belongs to another finalized transaction, at a random position of a batch
+func (s *c15Sim) failingOutput() {
+	r := s.r
+	asset := Pick(r, []int{4, 5})
+	if s.info[asset] != nil && *s.info[asset] != c15Info(asset) {
+		return
+	}
+	nOut := r.Range(2, 5)
+	a := s.multiDeposit(asset, nOut, nil, 0)
+	s.snapshot([]int{a.id}, 1+r.Intn(c15Nodes), s.fits([]int{a.id}), 0)
+	if !a.final {
+		return
+	}
+	pos := Pick(r, []int{0, nOut / 2, nOut - 1, r.Intn(nOut)})
+	b := s.multiDeposit(asset, nOut, a, pos)
+	b.good = false
+	good := s.pendingGood()
+	if len(good) > 2 {
+		good = good[:2]
+	}
+	if !s.fits(good) {
+		good = nil
+	}
+	members := append([]int(nil), good...)
+	at := r.Intn(len(members) + 1)
+	members = append(members[:at], append([]int{b.id}, members[at:]...)...)
+	s.snapshot(members, 1+r.Intn(c15Nodes), false, 0)
+}
+
+// 2..4 snapshots of different nodes that share pending transactions, handed to WriteSnapshot at the same
+// time while another writer holds the store mutex; each also carries a deposit of its own in the same asset
+func (s *c15Sim) concurrent() {
+	r := s.r
+	asset := Pick(r, []int{4, 5})
+	if s.info[asset] != nil && *s.info[asset] != c15Info(asset) {
+		return
+	}
+	n := r.Range(2, 4)
+	var shared []int
+	for k := r.Range(1, 2); k > 0; k-- {
+		shared = append(shared, s.deposit(asset, c15Units(int64(r.Range(1, 30))), c15DepOpt{validate: true}).id)
+	}
+	if f := s.finalIDs(); len(f) > 0 && r.Bool() {
+		shared = append(shared, Pick(r, f)) // and one that is finalized already
+	}
+	nodes := []int{1, 2, 3, 4, 5, 6, 7}
+	for a := len(nodes) - 1; a > 0; a-- {
+		b := r.Intn(a + 1)
+		nodes[a], nodes[b] = nodes[b], nodes[a]
+	}
+	line := fmt.Sprintf("csnap %d", n)
+	type one struct {
+		members    []int
+		node, topo int
+	}
+	var all []one
+	for i := 0; i < n; i++ {
+		own := s.deposit(asset, c15Units(int64(r.Range(1, 30))), c15DepOpt{validate: true})
+		members := append(append([]int(nil), shared...), own.id)
+		ok := true
+		for _, id := range members {
+			ok = ok && !s.uniq[[2]int{id, nodes[i]}]
+		}
+		if !ok {
+			return
+		}
+		args, topo := s.kargs(members, nodes[i])
+		line += " " + args
+		all = append(all, one{members, nodes[i], topo})
+	}
+	s.emit("%s", line)
+	s.emit("dump")
+	s.emit("supply")
+	for _, o := range all {
+		s.applyFinal(o.members, o.node, o.topo)
+	}
 }
 
 // a batch with a member that fails inside finalization, at a random position
